@@ -93,7 +93,7 @@ def coverage(
         elif any([p in platforms for p in subset]):
             used += sloc
 
-    if total == 0:
+    if total == 0 or len(platforms) == 0:
         return float("nan")
 
     return (used / total) * 100.0
